@@ -42,8 +42,11 @@ Handles == {"h1", "h2"}
 Dicts(n) == {LeafLow(n)} \cup { LeafLow(n) @@ (c :> v) : c \in CompIds(n), v \in DictVals }
 \* reload_b64: the handle is re-bound to the object unpacked from the object's own base64 string; by the design this is the same
 \* model (C17), so the action is a plain call: neither the store nor the bindings change
-QueryOps == {"evaluate", "evaluate_all", "assume", "reduce", "negate", "errors", "to_json", "to_b64", "to_poly", "flatten", "flags", "reload_b64"}
-CfgOps == {"cfg_poly", "default_prios", "leafs", "select"}
+\* solve: solve() with a solver callable supplied by the caller; builtin: solve() / select() with the library's own (default) solver;
+\* select_raise: select() with a solver callable that raises (the call ends with InfeasibleError and leaves nothing behind)
+QueryOps == {"evaluate", "evaluate_all", "assume", "reduce", "negate", "errors", "to_json", "to_b64", "to_poly", "flatten", "flags", "reload_b64",
+             "solve", "builtin"}
+CfgOps == {"cfg_poly", "default_prios", "leafs", "select", "select_raise"}
 IsCfg(n) == ~IsAtom(n) /\ n.cls = "StingyConfigurator"
 
 Init == /\ \E p \in Pairs : rcp = ("h1" :> p[1]) @@ ("h2" :> p[2])
